@@ -231,8 +231,7 @@ def _int(I, a, k):
             I.raise_py('ValueError', 'cannot convert float NaN to integer')
         if I.path.decide(z3.fpIsInf(x)):
             I.raise_py('OverflowError', 'cannot convert float infinity to integer')
-        r = z3.fpToReal(z3.fpRoundToIntegral(RTZ, x))
-        return mk_int(z3.ToInt(r))
+        return float_trunc_term(I, x)
     if isinstance(v, SReal):
         fl = z3.ToInt(v.t)
         return mk_int(z3.If(v.t >= 0, fl, -z3.ToInt(-v.t)))
@@ -243,6 +242,21 @@ def _int(I, a, k):
     if v is None or is_seq(v) or isinstance(v, PDict):
         I.raise_py('TypeError', "int() argument must be a string, a bytes-like object or a real number, not '%s'" % type_name(I, v))
     raise OutOfSubset('int(%r)' % (v,))
+
+
+def float_trunc_term(I, x):
+    """int(x) for a finite binary64 term x.  |x| < 2**62: exact through a 64-bit signed conversion.
+    Beyond that the exact integer is not tracked, only its sign and that |v| >= 2**62
+    (uninterpreted function of x, so equal arguments give equal results; no fork)."""
+    lim = z3.FPVal(float(2 ** 62), F64)
+    small = z3.And(z3.fpLT(x, lim), z3.fpGT(x, z3.fpNeg(lim)))
+    conv = z3.BV2Int(z3.fpToSBV(RTZ, x, z3.BitVecSort(64)), True)
+    r = z3.Int('hugeint!%d' % x.get_id())     # same term -> same symbol
+    I._keep = _b.getattr(I, '_keep', [])
+    I._keep.append(x)                          # keep the AST (and its id) alive
+    I.path.assume(z3.Implies(z3.Not(small), z3.If(z3.fpGT(x, z3.FPVal(0.0, F64)), r >= 2 ** 62, r <= -(2 ** 62))))
+    I.note_assumption('int(float) for |x| >= 2**62 is tracked by sign and magnitude bound only')
+    return mk_int(z3.If(small, conv, r))
 
 
 def str_to_int(I, s, base):
